@@ -448,7 +448,41 @@ def _minmax(R, rid):
             r0, r1 = root(c.args[0]), root(c.args[1])
             if r0 is not None and r0 == r1:
                 ok = False
+        # a NULL argument takes no part: the running value is overwritten with the row's value only on paths where that value was
+        # established to be non-NULL (NULL is the smallest value of the order, so `NULL < min` would reset MIN)
         if ok:
+            fa = PR.facts(ua, tag="minmax")
+            stores = [(i, st) for i, st in ua.stmts() if i in reg and st["k"] == "assign" and st["pl"]["p"] == ["*"] and st["rv"]["k"] == "use"
+                      and st["rv"]["op"].get("k") in ("copy", "move") and (st["rv"]["op"].get("ty") or "") == V]
+            for i, st in stores:
+                src_calls = set(id(o.call) for o in F.origins(ua, st["rv"]["op"], depth=10) if o.kind == "call")
+                ws = fa.worlds_at(i) if fa.ok else None
+                if ws is None:
+                    continue
+                unproven = 0
+                for w in ws:
+                    good_ = False
+                    for key_, val in w:
+                        a = fa.atoms.get(key_, {})
+                        c_ = a.get("call")
+                        if c_ is None or not isinstance(val, bool) or not re.search(r"Value::(is_null|is_not_null)$", short(c_.name)):
+                            continue
+                        notnull = val if short(c_.name).endswith("is_not_null") else (not val)
+                        tested = set(id(o.call) for o in F.origins(ua, c_.args[0], depth=10) if o.kind == "call") if c_.args else set()
+                        if notnull and (tested & src_calls):
+                            good_ = True
+                    if not good_:
+                        unproven += 1
+                if unproven:
+                    ok = None
+                    R.violation(rid, "update_aggregate|null-overwrites",
+                                "MIN / MAX store the row's value into the group's running value on a path where it was not established to be "
+                                "non-NULL: a NULL argument overwrites the running minimum (NULL is the smallest Value), so MIN restarts after "
+                                "every NULL row", ["%s:%d" % (ua.file, st["line"])])
+                    break
+        if ok is None:
+            pass
+        elif ok:
             R.ok(rid, "update_aggregate|MinMax", "MIN/MAX by Value's order (%s) for every value type" % "/".join(meths), lt[0].loc())
         else:
             R.violation(rid, "update_aggregate|self-compare", "MIN / MAX compare a value with itself", [lt[0].loc()])
